@@ -37,8 +37,8 @@ def rv_s(r):
     return str(r)
 def dump(fn):
     print(f"== {fn['path']}  [{fn.get('vis')}] {fn.get('sig','')} @{span_str(fn['span'])} inline={fn.get('inline')}")
-    print("   locals:", ", ".join(f"_{l['id']}:{l['ty']}" for l in fn['locals']))
-    print("   names:", {k:pl_s(v['p']) for k,v in fn['names'].items()})
+    if '--locals' in sys.argv: print("   locals:", ", ".join(f"_{l['id']}:{l['ty']}" for l in fn['locals']))
+    print("   names:", [(e['n'],pl_s(e['p'])) for e in fn['names']])
     for b in fn['blocks']:
         print(f" bb{b['id']}{' (cleanup)' if b.get('cleanup') else ''}:")
         for s in b['stmts']:
